@@ -27,6 +27,8 @@ def check(items, sep, width, cont, start=''):
             body = body[len(c1):]
         if k + 1 < len(lines) and body.endswith(c0.rstrip('\n')):
             body = body[:len(body) - len(c0.rstrip('\n'))]
+        import re as _re
+        body = _re.sub(r'''(?:'.*?')|(?:".*?")''', 'Q', body)      # a character literal is one unbreakable piece
         if len(l) > width and (' ' in body.strip() or ')' in body.strip()[:-1]):
             problems.append('line %d is %d long (width %d) and holds more than one unbreakable piece: %r' % (k, len(l), width, l))
     joined = ''
@@ -36,6 +38,11 @@ def check(items, sep, width, cont, start=''):
         if k + 1 < len(lines) and l.endswith(c0.rstrip('\n')):
             l = l[:len(l) - len(c0.rstrip('\n'))]
         joined += l
+    # a character literal is one token: it must survive intact on one physical line
+    import re
+    for lit in re.findall(r'''(?:'.*?')|(?:".*?")''', want):
+        if not any(lit in l for l in lines):
+            problems.append('character literal %s is broken across lines: %r' % (lit, text))
     if joined.replace(' ', '') != want.replace(' ', ''):
         problems.append('content changed: %r -> %r' % (want, joined))
     return problems
@@ -48,7 +55,7 @@ def corpus():
     for width in (8, 10, 13, 20):
         for cont in (('&\n', '&'), (' &\n', '   & ')):
             for sep in (', ', ' + '):
-                pools = [w for w in words] + ['a bcd', 'efghi jklmnop a', 'f(x) bcd']
+                pools = [w for w in words] + ['a bcd', 'efghi jklmnop a', 'f(x) bcd', '"it\'s a b"', "'say \"x y\" z'"]
                 for n in (1, 2, 3):
                     for items in itertools.product(pools, repeat=n):
                         for start in ('', 'xy = '):
